@@ -171,6 +171,10 @@ func c11BackendCases(rnd *rand.Rand, thorough bool) []hostileCase {
 			"bad-type-byte": "!oops\r\n", "negative-bulk": "$-7\r\n", "negative-array": "*-9\r\n", "huge-bulk": "$99999999999\r\n", "huge-array": "*99999999\r\n",
 			"no-crlf": "+OK\n", "int-garbage": ":12x\r\n", "empty-line": "\r\n", "nested-bomb": string(rep("*1\r\n", 200000)), "null-bulk": "$-1\r\n", "null-array": "*-1\r\n",
 			"integer": ":7\r\n", "array-of-int": "*2\r\n:1\r\n:2\r\n", "empty-array": "*0\r\n", "error": "-ERR whatever\r\n", "empty-error": "-\r\n",
+			// replies that look like the beginning of a compressed value (magic, algorithm byte) and stop there
+			"cps-header-3-bytes": "$3\r\n(P$\r\n", "cps-header-4-bytes": "$4\r\n(P$\x00\r\n", "cps-header-5-bytes": "$5\r\n(P$\x00\r\r\n", "cps-header-only": "$6\r\n(P$\x00\r\n\r\n",
+			"cps-header-4-bytes-status": "+(P$\x00\r\n", "cps-header-bad-algorithm": "$8\r\n(P$\x07\r\nab\r\n", "cps-header-garbage-stream": "$12\r\n(P$\x00\r\n\xff\xfe\xfd\xfc\xfb\xfa\r\n",
+			"cps-header-in-array": "*2\r\n$4\r\n(P$\x00\r\n$5\r\n(P$\x00\r\r\n",
 		} {
 			add("backend-resp:"+name+":"+rc, rc, []byte(raw))
 		}
